@@ -415,6 +415,78 @@ def bundled_readback_cases(only=None):
     return viol, done
 
 
+def literal_path_cases(only=None):
+    """A rebuilt stored value reaches a stored value downstream ONLY through plain (unregistered) literal nodes:
+    `add_dependency(raw, literal)` and the literal is an argument of the downstream stored call (one literal, two in a chain,
+    positional / keyword).  Everything is built, the source gets a newer version, and the next run must rebuild `raw` AND,
+    after it, the value downstream - and return the new value, not the stored old one."""
+    import datetime as dt
+    viol, done = [], 0
+    for shape in ("one-pos", "one-kw", "chain"):
+        for workers in (1, 3):
+            if only and [shape, workers] != list(only):
+                continue
+            clock = [0]
+            log = []
+
+            class S(uberjob.ValueStore):
+                def __init__(self, name, value=None):
+                    self.name, self.value, self.t = name, value, None
+                    if value is not None:
+                        self.touch()
+
+                def touch(self):
+                    clock[0] += 1
+                    self.t = dt.datetime(2021, 1, 1) + dt.timedelta(seconds=clock[0])
+
+                def read(self):
+                    return self.value
+
+                def write(self, v):
+                    self.value = v
+                    self.touch()
+                    log.append(self.name)
+
+                def get_modified_time(self):
+                    return self.t
+
+            plan, reg = uberjob.Plan(), uberjob.Registry()
+            s_src, s_raw, s_rep = S("src", "v1"), S("raw"), S("report")
+            src = reg.source(plan, s_src)
+            raw = plan.call(lambda x: "raw of " + x, src)
+            reg.add(raw, s_raw)
+            l1 = plan.lit("settings")
+            plan.add_dependency(raw, l1)
+            last = l1
+            if shape == "chain":
+                last = plan.lit("settings")
+                plan.add_dependency(l1, last)
+            if shape == "one-kw":
+                rep = plan.call(lambda *, cfg: "report[%s] #%d" % (cfg, clock[0]), cfg=last)
+            else:
+                rep = plan.call(lambda cfg: "report[%s] #%d" % (cfg, clock[0]), last)
+            reg.add(rep, s_rep)
+            uberjob.run(plan, registry=reg, output=rep, max_workers=workers, progress=None)
+            old = s_rep.value
+            s_src.value = "v2"
+            s_src.touch()
+            del log[:]
+            got = uberjob.run(plan, registry=reg, output=rep, max_workers=workers, progress=None)
+            done += 2
+            if log != ["raw", "report"]:
+                viol.append({"property": "C09", "kind": "literal-path", "case": [shape, workers],
+                             "what": f"{shape}, {workers} worker(s): the source is newer than `raw`, and `report` depends on `raw` "
+                                     f"through plain literal node(s) only; the run wrote {log}, expected ['raw', 'report'] "
+                                     f"(the stored value downstream of a rebuilt one must be rebuilt in the same run)"})
+            elif got == old or got != s_rep.value:
+                viol.append({"property": "C09", "kind": "literal-path", "case": [shape, workers],
+                             "what": f"{shape}, {workers} worker(s): run returned {got!r}; the store holds {s_rep.value!r}, before the "
+                                     f"run it held {old!r}"})
+            if viol:
+                return viol, done
+    return viol, done
+
+
 def explore_phys(ctx, n_hist, steps, structural=True, behavioural=True, salt=9):
     rng = random.Random(ctx.seed * 7919 + salt)
     viol, dis, tot, samples, distinct = [], [], {}, [], set()
@@ -468,6 +540,10 @@ def explore(ctx):
         v, n = bundled_readback_cases()
         res["violations"] += v
         cov["bundled_readback_runs"] = n
+    if not res["violations"]:
+        v, n = literal_path_cases()
+        res["violations"] += v
+        cov["literal_path_runs"] = n
     if not res["violations"] and not res["disagreements"]:
         if cov.get("norm_rebuilt", 0) == 0 or cov.get("norm_consumed_readbacks", 0) == 0 or cov.get("norm_partial_runs", 0) == 0:
             raise Broken("correspondence", "generator-floor", "no run with normalising stores rebuilt a value / consumed a read-back")
@@ -493,6 +569,8 @@ def search(ctx, broken):
             found += norm_exec.explore_norm(c, 300, steps=5, props=PROPS)["violations"]
         if not found:
             found += bundled_readback_cases()[0]
+        if not found:
+            found += literal_path_cases()[0]
         if found:
             break
     return found
@@ -504,6 +582,9 @@ def replay(ctx, payload):
         return norm_exec.replay_norm(ctx, w, PROPS)
     if w.get("kind") == "bundled-readback":
         v, _ = bundled_readback_cases(only=w["case"])
+        return v[0]["what"] if v else None
+    if w.get("kind") == "literal-path":
+        v, _ = literal_path_cases(only=w["case"])
         return v[0]["what"] if v else None
     # the real scheduler breaks ties by object identity (greedy priorities over sets of nodes): a schedule-dependent
     # witness may need more than one attempt
